@@ -20,6 +20,10 @@ TEXTS = {
     "comment-tail": "{ a = 1; }\n# end\n",
     "let": "let\n  v = 1;\nin\n{\n  a = v;\n}\n",
     "unicode": "{ a = \"é\"; }\n",
+    # characters Python treats as line boundaries but Nix does not (inside a string and inside a comment)
+    "line-separators": "{\n  a = \"x\u2028y\u2029z\x85w\";\n  # c\x0cd\x0be\x1cf\n  b = 2;\n}\n",
+    "cr-in-comment": "{\n  a = 1; # x\ry\n}\n",
+    "tabs-and-trailing": "{ a = 1; }\n\n\n",
 }
 COMMANDS = [("test",), ("set", "a", "2"), ("set", "z", '"s"'), ("set", "a", "{"), ("set", "a..b", "1"), ("set", "@v", "3"),
             ("rm", "a"), ("rm", "zz"), ("rm", ""), ("set", "m.x", "[ 1 ]"), ("bogus",), ()]
@@ -103,6 +107,9 @@ def run(tier, seed):
     for it, sym in zip(items, res):
         if sym:
             sig = f"{sym}|{' '.join(it[1])}|{it[0]}|{it[2]}"
+            if "\r" in TEXTS[it[0]] and it[2] == "file":
+                # -f FILE opens in universal-newline mode: a lone CR becomes LF, stdin keeps it (one defect, any command)
+                sig = "stdin-and-file-channel-disagree-on-carriage-returns"
             vio.append(dict(check="cli", signature=sig, what=f"C16 {sym}: nima {' '.join(it[1])} on {it[0]} via {it[2]}", has_input=True,
                             inputs={"text": TEXTS[it[0]], "cmd": list(it[1]), "channel": it[2], "tname": it[0]},
                             failing_input={"inputs": {"text": TEXTS[it[0]], "cmd": list(it[1]), "channel": it[2]}, "observed": sym,
